@@ -267,6 +267,89 @@ def run_derived(sp, fn):
         return {'k': 'raise', 'view': L.NOVIEW}, type(e).__name__ + ': ' + str(e)[:100]
 
 
+# ------------------------------------------------------------------ chains (histories on one cached object)
+def chain_step(sp, op):
+    if op['op'] == 'astype':
+        return sp.astype(L.DT[op['dt']])
+    if op['op'] == 'real_space':
+        return sp.real_space
+    if op['op'] == 'complex_space':
+        return sp.complex_space
+    if op['op'] == 'byaxis':
+        z = [t - 1 for t in op['idx']]
+        return sp.byaxis[z[0] if len(z) == 1 else z]
+    raise ValueError(op)
+
+
+def run_chain(start, path):
+    """-> (result space or None, identity pattern: objects numbered by first appearance, the start is 1)."""
+    seen = [start]
+    ids = []
+    cur = start
+    for op in path:
+        try:
+            cur = chain_step(cur, op)
+        except Exception:
+            return None, ids + [0]
+        for k, o in enumerate(seen):
+            if o is cur:
+                ids.append(k + 1)
+                break
+        else:
+            seen.append(cur)
+            ids.append(len(seen))
+    return cur, ids
+
+
+def chain_element(sp):
+    """x.real / x.imag / x.conj() of an element of sp against NumPy on asarray (2049 is not a float16)."""
+    try:
+        vals = np.arange(1, sp.size + 1, dtype='float64').reshape(sp.shape)
+        vals.flat[0] = 2049
+        if np.dtype(sp.dtype).kind == 'c':
+            vals = vals + 1j * (vals % 5 + 1)
+        x = sp.element(vals.astype(sp.dtype))
+        a = np.asarray(x)
+        bad = []
+        re, im, cj = x.real, x.imag, x.conj()
+        if not (np.shape(np.asarray(re)) == a.shape and np.array_equal(np.asarray(re), a.real)):
+            bad.append('real-part-values')
+        if not (np.shape(np.asarray(im)) == a.shape and np.array_equal(np.asarray(im), a.imag)):
+            bad.append('imag-part-values')
+        if not np.array_equal(np.asarray(cj), np.conj(a)):
+            bad.append('conj-values')
+        if im.space != re.space:
+            bad.append('imag-space-differs-from-real-space')
+        return {'k': 'ok', 'bad': bad, 'rview': L.view(re.space)}
+    except Exception:
+        return {'k': 'raise', 'bad': [], 'rview': L.NOVIEW}
+
+
+def chain_events(path, first_id):
+    """Replay every exported chain on ONE object per start descriptor (the caches carry over from chain to
+    chain) and, for comparison, on a freshly and differently constructed equal space."""
+    b = L.Builder()
+    starts = {}
+    evs = []
+    with open(path) as f:
+        for n, line in enumerate(f):
+            c = json.loads(line)
+            if c['si'] not in starts:
+                starts[c['si']] = b.build(c['d'], 1)
+            res, oids = run_chain(starts[c['si']], c['path'])
+            out = {'k': 'ok', 'view': L.view(res)} if res is not None else {'k': 'raise', 'view': L.NOVIEW}
+            fres, _ = run_chain(L.Builder().build(c['d'], 2 + n % 2), c['path'])
+            if res is None or fres is None:
+                fresh = 'n/a' if (res is None) == (fres is None) else 'raises-on-one-only'
+            else:
+                fresh = 'equal' if (res == fres and fres == res and L.view(res) == L.view(fres)) else 'differs'
+            elem = chain_element(res) if res is not None and np.dtype(res.dtype).kind in 'fc' else \
+                {'k': 'n/a', 'bad': [], 'rview': L.NOVIEW}
+            evs.append({'ev': 'chain', 'id': first_id + n, 'd': c['d'], 'path': c['path'], 'out': out, 'oids': oids,
+                        'fresh': fresh, 'elem': elem, 'ids': c['ids'], 'mk': c['mk'], 'mview': c['mview']})
+    return evs
+
+
 # ------------------------------------------------------------------ indexing
 def index_exprs(sp):
     if isinstance(sp, odl.ProductSpace):
@@ -362,7 +445,12 @@ def idx_class(label):
 
 
 def case_signature(clause, ev):
-    """Family of an element() / derived-space / indexing finding."""
+    """Family of an element() / derived-space / indexing / chain finding."""
+    if ev['ev'] == 'chain':
+        # clause, class and dtype class of the start space (the replay file holds the literal chain)
+        dt = ev['d']['sub'][1]['s'] if ev['d']['cls'] == 'Discr' else ev['d']['s']
+        dcls = 'float16' if dt == 'f16' else ('int' if dt.startswith('i') else ('complex' if dt.startswith('c') else 'float'))
+        return {'clause': clause.split(':')[0], 'cls': ev['d']['cls'], 'start-dtype': dcls}
     cls = ev['spc']['cls']
     w = 'array' if wkind_of(ev['spc']) == 'array' else 'not-array'
     if ev['ev'] == 'derived':
@@ -409,12 +497,15 @@ def run(ctx):
 
     # ---- 1. model ----
     big = '0' if quick else '1'
-    jobs = [('laws', 'MC_Sets_laws.cfg', {'OUT_FILE': os.devnull, 'ST_BIG': big}, 8),
-            ('export', 'MC_Sets_export.cfg', {'OUT_FILE': out, 'ST_BIG': big}, 1)]
+    chains = os.path.join(work, 'chains.ndjson')
+    jobs = [('laws', 'MC_Sets.tla', 'MC_Sets_laws.cfg', {'OUT_FILE': os.devnull, 'ST_BIG': big}, 8),
+            ('export', 'MC_Sets.tla', 'MC_Sets_export.cfg', {'OUT_FILE': out, 'ST_BIG': big}, 1),
+            ('chains-check', 'MC_SpaceChain.tla', 'MC_SpaceChain_check.cfg', {'OUT_FILE': os.devnull, 'ST_BIG': big}, 4),
+            ('chains-export', 'MC_SpaceChain.tla', 'MC_SpaceChain_export.cfg', {'OUT_FILE': chains, 'ST_BIG': big}, 1)]
 
     def go(j):
-        return j[0], run_tlc('MC_Sets.tla', j[1], work, env=j[2], workers=j[3], timeout=3000)
-    with ThreadPoolExecutor(max_workers=2) as ex:
+        return j[0], run_tlc(j[1], j[2], work, env=j[3], workers=j[4], timeout=3000)
+    with ThreadPoolExecutor(max_workers=4) as ex:
         for name, res in ex.map(go, jobs):
             ctx.add_tlc(name, res)
 
@@ -460,6 +551,15 @@ def run(ctx):
             extra_events.append({'ev': 'index', 'id': eid, 'spc': r['d'], 'idx': label, 'out': res})
             meta[eid] = {'kind': 'index', 'oid': r['oid'], 'idx': label}
             ctx.count(['index', r['k'], label], label not in (':', '...'))
+
+    nchain0 = eid
+    cevs = chain_events(chains, eid + 1)
+    for e in cevs:
+        eid = e['id']
+        extra_events.append(e)
+        meta[eid] = {'kind': 'chain', 'start': e['d'], 'path': e['path']}
+        ctx.count(['chain', e['d'], e['path']], len(e['path']) > 1)
+    ctx.extra['chains_replayed'] = len(cevs)
 
     # the same objects AFTER all of the above (cached real / complex spaces, lazily computed attributes) and after
     # an in-place modification of every wrapped weight array: the laws and layer A must still hold
@@ -533,7 +633,10 @@ def run(ctx):
                         sig = case_signature(clause, ev)
                         report(sig, {'stage': m['kind'], 'clause': clause, 'event': ev, 'meta': m})
     for d in drift:
-        if d[0].startswith('derived') and 0 < d[1] <= len(extra_events):
+        if d[0].startswith('chain') and 0 < d[1] <= len(extra_events):
+            ev_ = extra_events[d[1] - 1]
+            d = [d[0], dumps(ev_['path']), dumps(ev_['d'])[:120], ev_['ids'], ev_['oids'], dumps(ev_['out'])[:160]]
+        elif d[0].startswith('derived') and 0 < d[1] <= len(extra_events):
             ev_ = extra_events[d[1] - 1]
             d = [d[0], ev_.get('op'), ev_.get('idx'), ev_.get('form'), dumps(ev_['spc'])[:160], dumps(ev_['out'])[:200]]
         ctx.drift_note('layer C (EqHashImpl / DerivedSpaceImpl) vs real code: %s %s' % (d[0], d[1:]))
@@ -594,9 +697,10 @@ def replay(body):
         print('REPRODUCED' if bad else 'NOT-REPRODUCED')
         return 1 if bad else 0
     ev, m = d['event'], d['meta']
-    recs = [{'oid': 1, 'k': 1, 'copy': 1, 'd': ev['spc']}]
-    sp = b.build(ev['spc'], 1)
-    print('space =', L.safe_repr(sp, 200))
+    if d['stage'] != 'chain':
+        recs = [{'oid': 1, 'k': 1, 'copy': 1, 'd': ev['spc']}]
+        sp = b.build(ev['spc'], 1)
+        print('space =', L.safe_repr(sp, 200))
     if d['stage'] == 'derived':
         outp, err = run_derived(sp, lambda x: derived_call(x, m['op'], m['dt'], m['idx'], m['form']))
         print(m['op'], m['dt'], m['idx'], m['form'], '->', dumps(outp), err)
@@ -611,6 +715,16 @@ def replay(body):
                 bad = res == ev['out']
                 print('REPRODUCED' if bad else 'NOT-REPRODUCED')
                 return 1 if bad else 0
+    if d['stage'] == 'chain':
+        start = b.build(ev['d'], 1)
+        res, oids = run_chain(start, ev['path'])
+        out = {'k': 'ok', 'view': L.view(res)} if res is not None else {'k': 'raise', 'view': L.NOVIEW}
+        print('start =', L.safe_repr(start), ' chain =', dumps(ev['path']))
+        print('result now :', dumps(out), ' (fresh object, no earlier history)')
+        print('result then:', dumps(ev['out']), ' elem:', dumps(ev['elem'])[:200], ' fresh:', ev['fresh'])
+        bad = out == ev['out']
+        print('REPRODUCED' if bad else 'NOT-REPRODUCED (history dependent or repaired)')
+        return 1 if bad else 0
     if d['stage'] == 'element':
         inp = ev['inp']
         objs = [sp]
